@@ -16,7 +16,12 @@
   * `include_same_result`       hence the two texts assemble to the same bytes, labels, constants
                                 (or both fail);
   * `path_same_as_source`       a file given by path assembles like its text given as a string
-                                from the file's directory.
+                                from the file's directory;
+  * `resolve_lexical`           on the symlink-free filesystem model, the file a path string with
+                                `.` / `..` components resolves to is the one `os.path.abspath`
+                                names, so nested includes are relative to the real directory.
+  Path strings are kept as the code builds them (`os.path.join(dir, rel)` verbatim); `FS.resolve`
+  walks their components the way the operating system does (every step from an existing directory).
 -/
 import BB.Lemmas.ReadFront
 namespace BB.Props.C14
@@ -35,12 +40,12 @@ theorem include_is_splice (fs : FS) (dirs : List String) (fuel : Nat) (path base
     (source : List Char) (pre post : List (List Char)) (raw : List Char)
     (rel incPath : String) (bs : List Nat) (src : List Char)
     (hsrc : splitLines source = pre ++ raw :: post)
-    (hinc : IsIncludeLine raw rel) (hform : (normRel rel || normAbs rel) = true)
-    (hlook : lookupPath fs rel (dirs ++ [base]) = some incPath) (hdir : fs.isDir incPath = false)
-    (hread : fs.readBytes incPath = some bs) (hascii : bytesToAscii bs = some src) :
+    (hinc : IsIncludeLine raw rel) (hform : pathOk rel = true)
+    (hlook : lookupPath fs rel (dirs ++ [base]) = some incPath) (hdir : fs.isDirAt incPath = false)
+    (hread : fs.readAt incPath = some bs) (hascii : bytesToAscii bs = some src) :
     readLinesAux fs dirs (fuel + 1) path base source =
       seqLines (linesFrom fs dirs fuel path base 1 pre)
-        (seqLines (readLinesAux fs dirs fuel incPath (pathDirname incPath) src)
+        (seqLines (readLinesAux fs dirs fuel incPath (baseOf incPath) src)
           (linesFrom fs dirs fuel path base (1 + pre.length + 1) post)) := by
   rw [readLinesAux.eq_2, hsrc, go_append, go_cons,
     lineHead_include fs dirs fuel path _ _ raw rel incPath bs src hinc hform hlook hdir hread hascii]
@@ -50,12 +55,12 @@ theorem include_is_splice_source (fs : FS) (dirs : List String) (fuel : Nat) (pa
     (pre post : List (List Char)) (raw : List Char)
     (rel incPath : String) (bs : List Nat) (src : List Char)
     (hnb : ∀ l ∈ pre ++ raw :: post, NoBreak l)
-    (hinc : IsIncludeLine raw rel) (hform : (normRel rel || normAbs rel) = true)
-    (hlook : lookupPath fs rel (dirs ++ [base]) = some incPath) (hdir : fs.isDir incPath = false)
-    (hread : fs.readBytes incPath = some bs) (hascii : bytesToAscii bs = some src) :
+    (hinc : IsIncludeLine raw rel) (hform : pathOk rel = true)
+    (hlook : lookupPath fs rel (dirs ++ [base]) = some incPath) (hdir : fs.isDirAt incPath = false)
+    (hread : fs.readAt incPath = some bs) (hascii : bytesToAscii bs = some src) :
     readLinesAux fs dirs (fuel + 1) path base (unlines (pre ++ raw :: post)) =
       seqLines (linesFrom fs dirs fuel path base 1 pre)
-        (seqLines (readLinesAux fs dirs fuel incPath (pathDirname incPath) src)
+        (seqLines (readLinesAux fs dirs fuel incPath (baseOf incPath) src)
           (linesFrom fs dirs fuel path base (1 + pre.length + 1) post)) :=
   include_is_splice fs dirs fuel path base _ pre post raw rel incPath bs src
     (splitLines_unlines _ hnb) hinc hform hlook hdir hread hascii
@@ -68,9 +73,9 @@ theorem include_textual_splice (fs : FS) (dirs : List String) (fuel : Nat) (path
     (rel incPath : String) (bs : List Nat) (src : List Char)
     (hA : splitLines srcA = pre ++ raw :: post)
     (hB : splitLines srcB = pre ++ (splitLines src ++ post))
-    (hinc : IsIncludeLine raw rel) (hform : (normRel rel || normAbs rel) = true)
-    (hlook : lookupPath fs rel (dirs ++ [base]) = some incPath) (hdir : fs.isDir incPath = false)
-    (hread : fs.readBytes incPath = some bs) (hascii : bytesToAscii bs = some src)
+    (hinc : IsIncludeLine raw rel) (hform : pathOk rel = true)
+    (hlook : lookupPath fs rel (dirs ++ [base]) = some incPath) (hdir : fs.isDirAt incPath = false)
+    (hread : fs.readAt incPath = some bs) (hascii : bytesToAscii bs = some src)
     (hplain : ∀ l ∈ splitLines src, IsPlainLine l) :
     contentsOf (readLinesAux fs dirs (fuel + 2) path base srcA) =
       contentsOf (readLinesAux fs dirs (fuel + 2) path base srcB) := by
@@ -87,14 +92,14 @@ theorem include_textual_splice (fs : FS) (dirs : List String) (fuel : Nat) (path
 theorem frontEnd_include_splice (fs : FS) (cwd : String) (dirs : List String) (A B : String)
     (pre post : List (List Char)) (raw : List Char)
     (rel incPath : String) (bs : List Nat) (src : List Char)
-    (hcwd : normAbs cwd = true) (hdirs : dirs.all normAbs = true)
+    (hcwd : normAbs cwd = true) (hdirs : dirs.all absOk = true)
     (hasciiA : A.toList.all (fun c => c.toNat < 128) = true)
     (hasciiB : B.toList.all (fun c => c.toNat < 128) = true)
     (hA : splitLines A.toList = pre ++ raw :: post)
     (hB : splitLines B.toList = pre ++ (splitLines src ++ post))
-    (hinc : IsIncludeLine raw rel) (hform : (normRel rel || normAbs rel) = true)
-    (hlook : lookupPath fs rel (dirs ++ [cwd]) = some incPath) (hdir : fs.isDir incPath = false)
-    (hread : fs.readBytes incPath = some bs) (hascii : bytesToAscii bs = some src)
+    (hinc : IsIncludeLine raw rel) (hform : pathOk rel = true)
+    (hlook : lookupPath fs rel (dirs ++ [cwd]) = some incPath) (hdir : fs.isDirAt incPath = false)
+    (hread : fs.readAt incPath = some bs) (hascii : bytesToAscii bs = some src)
     (hplain : ∀ l ∈ splitLines src, IsPlainLine l) :
     erasedItems (frontEnd fs cwd dirs (.source A)) = erasedItems (frontEnd fs cwd dirs (.source B)) := by
   rw [frontEnd_source fs cwd dirs A hcwd hdirs hasciiA, frontEnd_source fs cwd dirs B hcwd hdirs hasciiB]
@@ -124,14 +129,14 @@ theorem assemble_ignores_line_metadata_erased (fs : FS) (c : Bool) (items : List
 theorem include_same_result (fs : FS) (cwd : String) (dirs : List String) (c : Bool) (A B : String)
     (pre post : List (List Char)) (raw : List Char)
     (rel incPath : String) (bs : List Nat) (src : List Char)
-    (hcwd : normAbs cwd = true) (hdirs : dirs.all normAbs = true)
+    (hcwd : normAbs cwd = true) (hdirs : dirs.all absOk = true)
     (hasciiA : A.toList.all (fun c => c.toNat < 128) = true)
     (hasciiB : B.toList.all (fun c => c.toNat < 128) = true)
     (hA : splitLines A.toList = pre ++ raw :: post)
     (hB : splitLines B.toList = pre ++ (splitLines src ++ post))
-    (hinc : IsIncludeLine raw rel) (hform : (normRel rel || normAbs rel) = true)
-    (hlook : lookupPath fs rel (dirs ++ [cwd]) = some incPath) (hdir : fs.isDir incPath = false)
-    (hread : fs.readBytes incPath = some bs) (hascii : bytesToAscii bs = some src)
+    (hinc : IsIncludeLine raw rel) (hform : pathOk rel = true)
+    (hlook : lookupPath fs rel (dirs ++ [cwd]) = some incPath) (hdir : fs.isDirAt incPath = false)
+    (hread : fs.readAt incPath = some bs) (hascii : bytesToAscii bs = some src)
     (hplain : ∀ l ∈ splitLines src, IsPlainLine l) :
     resultOf (assembleText fs cwd dirs c (.source A)) = resultOf (assembleText fs cwd dirs c (.source B)) := by
   rw [resultOf_assembleText, resultOf_assembleText,
@@ -141,15 +146,15 @@ theorem include_same_result (fs : FS) (cwd : String) (dirs : List String) (c : B
 /-- a file given by its path assembles like its text given as a string from the file's directory -/
 theorem path_same_as_source (fs : FS) (cwd : String) (dirs : List String) (c : Bool) (p : String)
     (bs : List Nat) (text : String)
-    (hcwd : normAbs cwd = true) (hdirs : dirs.all normAbs = true) (hp : normAbs p = true)
-    (hbase : normAbs (pathDirname p) = true)
-    (hr : fs.readBytes p = some bs) (ha : bytesToAscii bs = some text.toList)
+    (hcwd : normAbs cwd = true) (hdirs : dirs.all absOk = true) (hp : absOk p = true)
+    (hbase : normAbs (baseOf p) = true)
+    (hr : fs.readAt p = some bs) (ha : bytesToAscii bs = some text.toList)
     (hascii : text.toList.all (fun c => c.toNat < 128) = true) :
     resultOf (assembleText fs cwd dirs c (.path p)) =
-      resultOf (assembleText fs (pathDirname p) dirs c (.source text)) := by
+      resultOf (assembleText fs (baseOf p) dirs c (.source text)) := by
   rw [resultOf_assembleText, resultOf_assembleText,
     frontEnd_path fs cwd dirs p bs text.toList hcwd hdirs hp hr ha,
-    frontEnd_source fs (pathDirname p) dirs text hbase hdirs hascii]
+    frontEnd_source fs (baseOf p) dirs text hbase hdirs hascii]
   rw [erasedItems_bind_of_contents _ _ _]
   rw [readLinesAux.eq_2, readLinesAux.eq_2]
   exact contentsOf_go fs dirs _ p "<string>" _ _ 1 1
@@ -162,24 +167,9 @@ def exFS : FS :=
               ("/q/sub/f.asm", "  addi x3, x3, 3\n".toList.map Char.toNat)],
     dirs := ["/", "/p", "/p/sub", "/q", "/q/sub"] }
 
-theorem ex_split : ("sub/f.asm".splitOn "/") = ["sub", "f.asm"] := by
-  simp [String.splitOn]
-  repeat (rw [String.splitOnAux.eq_1]; simp (decide := true))
+theorem ex_form : pathOk "sub/f.asm" = true := by decide
 
-theorem ex_form : (normRel "sub/f.asm" || normAbs "sub/f.asm") = true := by
-  have : normRel "sub/f.asm" = true := by
-    unfold normRel
-    rw [ex_split]
-    decide
-  simp [this]
-
-theorem ex_dirname : pathDirname "/p/sub/f.asm" = "/p/sub" := by
-  have h : ("/p/sub/f.asm".splitOn "/") = ["", "p", "sub", "f.asm"] := by
-    simp [String.splitOn]
-    repeat (rw [String.splitOnAux.eq_1]; simp (decide := true))
-  unfold pathDirname
-  rw [h]
-  decide
+theorem ex_dirname : baseOf "/p/sub/f.asm" = "/p/sub" := by decide
 
 def exMain : List Char := "addi x1, x1, 1\ninclude \"sub/f.asm\"  # the part\nend:\n".toList
 def exF : List Char := "L:\n  addi x2, x2, 2\n".toList
@@ -225,5 +215,76 @@ example (fuel : Nat) :
       intro l hl
       simp only [List.mem_cons, List.not_mem_nil, or_false] at hl
       rcases hl with rfl | rfl <;> exact ⟨by decide, by decide⟩)
+
+/-! ### paths with `.` and `..` components, as the repository's own examples use them -/
+
+/-- on a filesystem without symbolic links, what the operating system resolves a path string to is
+    what `os.path.abspath` computes lexically — so the directory the code derives for nested
+    includes (`dirname(abspath(path))`) is the directory of the file it actually opened -/
+theorem resolve_lexical (fs : FS) (p q : String) (h : fs.resolve p = some q) : q = normPath p := by
+  have hw : ∀ (comps stack s : List (List Char)), fs.walk stack comps = some s → s = comps.foldl stepComp stack := by
+    intro comps
+    induction comps with
+    | nil => intro stack s h; simp only [FS.walk, Option.some.injEq] at h; simp [h]
+    | cons c rest ih =>
+      intro stack s h
+      simp only [FS.walk] at h
+      split at h
+      · simp only [List.foldl_cons]; exact ih _ _ h
+      · cases h
+  unfold FS.resolve at h
+  unfold normPath
+  split at h
+  · split at h
+    · rename_i stack hs
+      dsimp only at h
+      split at h
+      · injection h with h; rw [← h, hw _ _ _ hs]
+      · cases h
+    · cases h
+  · cases h
+
+/-- the layout of /repo: examples/main.asm starts with `include ../bronzebeard/definitions/chip.asm` -/
+def repoFS : FS :=
+  { files := [("/r/examples/main.asm", "include ../bronzebeard/definitions/chip.asm\nli t0, BASE\n".toList.map Char.toNat),
+              ("/r/bronzebeard/definitions/chip.asm", "BASE = 0x40021000\ninclude_bytes ./blob.bin\n".toList.map Char.toNat),
+              ("/r/bronzebeard/definitions/blob.bin", [1, 2, 3, 4])],
+    dirs := ["/", "/r", "/r/examples", "/r/bronzebeard", "/r/bronzebeard/definitions"] }
+
+def repoMain : List Char := "include ../bronzebeard/definitions/chip.asm\nli t0, BASE\n".toList
+def repoChip : List Char := "BASE = 0x40021000\ninclude_bytes ./blob.bin\n".toList
+
+/-- the search keeps the path string as written … -/
+example : lookupPath repoFS "../bronzebeard/definitions/chip.asm" ([] ++ ["/r/examples"]) =
+    some "/r/examples/../bronzebeard/definitions/chip.asm" := by decide
+/-- … the operating system resolves it … -/
+example : repoFS.resolve "/r/examples/../bronzebeard/definitions/chip.asm" =
+    some "/r/bronzebeard/definitions/chip.asm" := by decide
+/-- … a missing directory on the way is not forgiven (`os.path.normpath` alone would) … -/
+example : repoFS.resolve "/r/nosuch/../bronzebeard/definitions/chip.asm" = none := by decide
+/-- … and nested includes of that file are relative to its real directory -/
+example : baseOf "/r/examples/../bronzebeard/definitions/chip.asm" = "/r/bronzebeard/definitions" := by decide
+
+/-- `include_is_splice` on the repository's shape: the include line contributes the lines of the
+    chip file, attributed to the path string as the code built it and read relative to
+    /r/bronzebeard/definitions -/
+example (fuel : Nat) :
+    readLinesAux repoFS [] (fuel + 1) "/r/examples/main.asm" "/r/examples" repoMain =
+      seqLines (linesFrom repoFS [] fuel "/r/examples/main.asm" "/r/examples" 1 [])
+        (seqLines (readLinesAux repoFS [] fuel "/r/examples/../bronzebeard/definitions/chip.asm"
+            "/r/bronzebeard/definitions" repoChip)
+          (linesFrom repoFS [] fuel "/r/examples/main.asm" "/r/examples" 2 ["li t0, BASE".toList])) := by
+  have hb : baseOf "/r/examples/../bronzebeard/definitions/chip.asm" = "/r/bronzebeard/definitions" := by decide
+  rw [← hb]
+  exact include_is_splice repoFS [] fuel "/r/examples/main.asm" "/r/examples" repoMain [] ["li t0, BASE".toList]
+    "include ../bronzebeard/definitions/chip.asm".toList "../bronzebeard/definitions/chip.asm"
+    "/r/examples/../bronzebeard/definitions/chip.asm" (repoChip.map Char.toNat) repoChip
+    (by decide) ⟨by decide, "include".toList, "../bronzebeard/definitions/chip.asm".toList, by decide, by decide⟩
+    (by decide) (by decide) (by decide) (by decide) (by decide)
+
+/-- the `include_bytes ./blob.bin` inside the chip file is found next to the chip file -/
+example : lookupPath repoFS "./blob.bin" ([] ++ ["/r/bronzebeard/definitions"]) =
+      some "/r/bronzebeard/definitions/./blob.bin" ∧
+    repoFS.readAt "/r/bronzebeard/definitions/./blob.bin" = some [1, 2, 3, 4] := by decide
 
 end BB.Props.C14
